@@ -61,6 +61,7 @@ class Member:
         self.vis = vis or {}
         self.unsafe = unsafe
         self.tag_as = None
+        self.patch = {}               # single-defect mutations for C14: trait_name / drop_item / add_item / unsafe / inherent / as_trait
         self.custom_bounds = None     # [(bounded AST over member params, dtrait idx, [darg ASTs], assoc, payload|None)] replacing the key-derived bounds
         self.tag = None
 
@@ -141,10 +142,14 @@ class Plan:
             decl.append(names[p] + (": " + " + ".join(bs) if bs else ""))
         generics = "<" + ", ".join(decl) + ">" if decl else ""
         wh = " where " + ", ".join(where) if where else ""
-        if self.mode == "trait" or shadow:
-            tname = f"S{bi}" if shadow else self.trait_name
+        force_inherent = m.patch.get("inherent") and not shadow
+        force_trait = m.patch.get("as_trait") if not shadow else None
+        if (self.mode == "trait" or shadow or force_trait) and not force_inherent:
+            tname = f"S{bi}" if shadow else (force_trait or m.patch.get("trait_name") or self.trait_name)
             ta = "<" + ", ".join(pr(named(a, names)) for a in targs) + ">" if targs else ""
             uns = "unsafe " if (self.trait_unsafe and not shadow) or (m.unsafe and not shadow) else ""
+            if "unsafe" in m.patch and not shadow:
+                uns = "unsafe " if m.patch["unsafe"] else ""
             head = f"{uns}impl{generics} {tname}{ta} for {pr(named(self_ty, names))}{wh}"
         else:
             head = f"impl{generics} {pr(named(self_ty, names))}{wh}"
@@ -154,8 +159,12 @@ class Plan:
 
     def block_items(self, bi, m):
         out = []
+        if m.patch.get("add_item"):
+            out.append(m.patch["add_item"])
         for kind, name, has_default in self.items:
             if has_default and m.overrides is not None and name not in m.overrides:
+                continue
+            if m.patch.get("drop_item") == name:
                 continue
             vis = m.vis.get(name, "")
             tag = f"b{bi}.{name}" if m.tag_as is None else f"{m.tag_as}.{name}"
@@ -167,6 +176,8 @@ class Plan:
                 out.append(f'{vis}fn {name}() -> &\'static str {{ "{tag}" }}')
             elif kind == "method":
                 out.append(f'{vis}fn {name}(&self) -> &\'static str {{ "{tag}" }}')
+            elif kind == "ltfn":
+                out.append(f"{vis}fn {name}(x: &'a u8) -> &'a u8 {{ x }}")
             elif kind == "pfn":
                 fi = self.blocks()[bi][0]
                 n = self.families[fi].nparams
@@ -194,6 +205,8 @@ class Plan:
                 items.append(f"fn {name}() -> &'static str" + (f' {{ "dflt.{name}" }}' if has_default else ";"))
             elif kind == "method":
                 items.append(f"fn {name}(&self) -> &'static str" + (f' {{ "dflt.{name}" }}' if has_default else ";"))
+            elif kind == "ltfn":
+                items.append(f"fn {name}(x: &'a u8) -> &'a u8;")
         uns = "unsafe " if self.trait_unsafe else ""
         return f"{self.trait_vis}{uns}trait {self.trait_name}{gtxt}{self.trait_supers}{self.trait_where} {{ {' '.join(items)} }}"
 
@@ -217,7 +230,7 @@ class Plan:
         for l in self.locals:
             out.append(f"pub struct {l};")
         out.append("pub struct W1<T: ?Sized>(PhantomData<T>); pub struct W2<T: ?Sized, U: ?Sized>(PhantomData<T>, PhantomData<U>);")
-        out.append("pub trait Plain0 {} pub trait Plain1 {}")
+        out.append("pub trait Plain0 {} pub trait Plain1 {} impl Plain0 for u8 {} impl Plain0 for u16 {} impl Plain0 for String {} impl<A: Plain0, B: Plain0> Plain0 for (A, B) {}")
         if self.inherent_ty:
             out.append(self.inherent_ty)
         for bi in range(len(self.blocks())):
@@ -230,6 +243,8 @@ class Plan:
             body = " ".join(f"type {a} = {v};" for a, v in assocs.items())
             out.append(f"impl {d.name}{ta} for {ty} {{ {body} }}")
         for plain, ty in self.plain:
+            if plain == "Plain0" and (ty in ("u8", "u16", "String") or ty.startswith("(")):
+                continue
             out.append(f"impl {plain} for {ty} {{}}")
         out.append(PROBE_MACROS)
         return "\n".join(out)
@@ -285,8 +300,13 @@ class Plan:
         # shadow traits take the main trait's generic parameters
         gens = []
         for g in self.trait_generics:
-            gens.append(g[1] if g[0] != "const" else f"const {g[1]}: {g[2]}")
-        gtxt = "<" + ", ".join(x + (": ?Sized" if (g[0] == "ty" and "?Sized" in (g[2] or "")) else "") for x, g in zip(gens, self.trait_generics)) + ">" if gens else ""
+            if g[0] == "lt":
+                gens.append(g[1] + (": " + g[2] if g[2] else ""))
+            elif g[0] == "ty":
+                gens.append(g[1] + (": ?Sized" if "?Sized" in (g[2] or "") else "") + (" = " + g[3] if g[3] else ""))
+            else:
+                gens.append(f"const {g[1]}: {g[2]}")
+        gtxt = "<" + ", ".join(gens) + ">" if gens else ""
         for bi in range(nb):
             lines.append(f"pub trait S{bi}{gtxt} {{}}")
             lines.append(self.block_text(bi, shadow=True))
@@ -378,7 +398,7 @@ class PlanGen:
         r = self.r
         c = r.random()
         if depth <= 0 or c < 0.6:
-            return self.local(plan) if r.random() < 0.85 else self.pick(["i32", "String", "u8"])
+            return self.local(plan) if (r.random() < 0.85 or plan.notes.get("keep_plain")) else self.pick(["i32", "String", "u8"])
         if c < 0.75:
             return f"Vec<{self.ground(plan, depth - 1)}>"
         if c < 0.85:
@@ -478,7 +498,7 @@ class PlanGen:
         """add world impls that make member (fi, mi) applicable to a fresh ground instance; returns the probe"""
         f = plan.families[fi]
         m = f.members[mi]
-        rho = {i: ("ty", leaf(self.ground(plan, self.pick([0, 0, 1])))) for i in range(m.nparams)}
+        rho = {i: ("ty", leaf(self.ground(plan, 0 if plan.notes.get("keep_plain") else self.pick([0, 0, 1])))) for i in range(m.nparams)}
         for p in m.unsized:
             if self.r.random() < 0.7:
                 rho[p] = ("ty", leaf(self.pick(["str", "[u8]"])))
@@ -505,7 +525,7 @@ class PlanGen:
         for dt, dargs, bounded, assoc, val in clauses:
             self.add_world(plan, dt, dargs, bounded, assoc, val)
         for b, plain in m.extra:
-            if not partial or self.r.random() < 0.5:
+            if not partial or plan.notes.get("keep_plain") or self.r.random() < 0.5:
                 plan.plain.append((plain, pr(subst(b, rho))))
         return (q, qargs)
 
@@ -698,6 +718,185 @@ class PlanGen:
             if k.bounded[0] == "tp" and k.bounded[1] in binding and a.row[ki] is not None and not params_of(a.row[ki]):
                 self.add_world(plan, k.dt, [pr(x) for x in k.dargs], binding[k.bounded[1]], k.assoc, pr(a.row[ki]))
 
+    # ------------------------------------------------------------------ trait arguments (C16)
+    def trait_args_plan(self):
+        r = self.r
+        plan = Plan()
+        plan.dtraits = [DTrait("D0")] + ([DTrait("D1", assocs=("G", "H"))] if r.random() < 0.4 else [])
+        has_lt = r.random() < 0.35
+        ntp = self.pick([1, 1, 2])
+        has_const = r.random() < 0.35
+        gens = []
+        if has_lt:
+            gens.append(("lt", "'a", ""))
+            if r.random() < 0.3:
+                gens.append(("lt", "'b", "'a"))
+        tp_bounds = []
+        for i in range(ntp):
+            b = self.pick(["", "", "Plain0"])
+            dflt = "u8" if (i == ntp - 1 and not has_const and r.random() < 0.3) else None
+            gens.append(("ty", f"P{i}", b, dflt))
+            tp_bounds.append(b)
+        if has_const:
+            gens.append(("const", "N", "usize", None))
+        plan.trait_generics = gens
+        plan.notes["keep_plain"] = True   # probes must be well-formed trait references: bounds of trait parameters always hold
+        nlt = sum(1 for g_ in gens if g_[0] == "lt")
+        plan.items = [("const", "NAME", False)] + ([("fn", "tag", False)] if r.random() < 0.5 else []) + ([("fn", "dtag", True)] if r.random() < 0.4 else [])
+        if has_lt:
+            plan.items.append(("ltfn", "lt", False))
+        nfam = self.pick([1, 2, 2, 3])
+        sigs = []
+        tries = 0
+        while len(plan.families) < nfam and tries < 30:
+            tries += 1
+            nparams, self_ty = self.pick(HEADER_SHAPES[:8])
+            self_ty = copy.deepcopy(self_ty)
+            # instantiate the trait's type parameters
+            targs_ty = []
+            extra = []
+            fresh = nparams
+            for i in range(ntp):
+                c = r.random()
+                if c < 0.4:
+                    p = r.randrange(nparams) if r.random() < 0.6 else None
+                    if p is None:
+                        p = fresh
+                        fresh += 1
+                    targs_ty.append(("tp", p))
+                    if tp_bounds[i]:
+                        extra.append((("tp", p), tp_bounds[i]))
+                elif c < 0.8:
+                    targs_ty.append(leaf(self.pick(["u8", "u16", "String"])))
+                else:
+                    targs_ty.append(("tuple", [("tp", 0), leaf("u8")]))
+                    if tp_bounds[i]:
+                        extra.append((("tp", 0), tp_bounds[i]))
+            use_default = gens and any(g_[0] == "ty" and g_[3] for g_ in gens) and r.random() < 0.5
+            cargs = [("lit", str(self.pick([1, 2, 3])))] if has_const else []
+            # families must not overlap: require a concrete distinguishing position w.r.t. every earlier family
+            sig = (self_ty[0] + (self_ty[1] if self_ty[0] == "ctor" else ""), [pr(t) if not params_of(t) else None for t in targs_ty], [pr(c_) for c_ in cargs], use_default)
+            def disjoint(a, b):
+                if a[0] != b[0] and "tp" not in (a[0], b[0]):
+                    return True
+                if a[2] != b[2]:
+                    return True
+                ta = list(a[1]); tb = list(b[1])
+                if a[3]: ta[-1] = "u8"
+                if b[3]: tb[-1] = "u8"
+                return any(x is not None and y is not None and x != y for x, y in zip(ta, tb))
+            if any(not disjoint(sig, o) for o in sigs):
+                continue
+            sigs.append(sig)
+            nparams_total = fresh
+            keys, used = [], set()
+            for _ in range(self.pick([1, 1, 2])):
+                p = r.randrange(nparams)
+                dt = r.randrange(len(plan.dtraits))
+                assoc = self.pick(plan.dtraits[dt].assocs)
+                if (p, dt, assoc) in used:
+                    continue
+                used.add((p, dt, assoc))
+                keys.append(Key(("tp", p), dt, [], assoc))
+            members, rows = [], []
+            t2 = 0
+            want = self.pick([2, 2, 3])
+            while len(members) < want and t2 < 20:
+                t2 += 1
+                row = [leaf(self.pick(MARKERS)) for _ in keys]
+                if any(_rows_unify(row, o) for o in rows):
+                    continue
+                rows.append(row)
+                m = Member({}, row, nparams_total)
+                m.names = self.names(nparams_total)
+                m.decl_order = list(range(nparams_total))
+                if r.random() < 0.4:
+                    r.shuffle(m.decl_order)
+                m.inline = {ki: r.random() < 0.6 for ki in range(len(keys))}
+                m.extra = list(extra)
+                m.lifetimes = [g_[1] + (": " + g_[2] if g_[2] else "") for g_ in gens if g_[0] == "lt"]
+                has_dflt = [n for _, n, d in plan.items if d]
+                m.overrides = {n for n in has_dflt if r.random() < 0.5}
+                members.append(m)
+            lt_args = [("lt_", g_[1]) for g_ in gens if g_[0] == "lt"]
+            targs = lt_args + (targs_ty[:-1] if use_default else targs_ty) + [("cst_", c_) for c_ in cargs]
+            if use_default and has_const:
+                continue
+            plan.families.append(Family(self_ty, targs, nparams_total, keys, members))
+        self.populate(plan)
+        # probes with non-matching trait arguments
+        extra_probes = []
+        for ty, targs in plan.probes[: 6]:
+            if targs:
+                t2 = list(targs)
+                j = r.randrange(len(t2))
+                if t2[j].startswith("'"):
+                    continue
+                t2[j] = {"1": "2", "2": "3", "3": "1"}.get(t2[j], "u16" if t2[j] != "u16" else "u8")
+                if any(tt not in ("u8", "u16", "String", "1", "2", "3") and not tt.startswith("'") and (tt, ) and ("Plain0", tt) not in plan.plain
+                       for tt, gg in zip(t2, plan.trait_generics) if gg[0] == "ty" and gg[2]):
+                    continue
+                extra_probes.append((ty, t2))
+        plan.probes += extra_probes
+        plan.probes = [(ty, [a.replace("'a", "'static").replace("'b", "'static") for a in ta]) for ty, ta in plan.probes]
+        return plan
+
+    # ------------------------------------------------------------------ ?Sized (C15)
+    def unsized_plan(self, d7=None):
+        r = self.r
+        plan = Plan()
+        plan.dtraits = [DTrait("D0"), DTrait("D1", assocs=("G", "H"))][: self.pick([1, 2])]
+        plan.items = [("const", "NAME", False)] + ([("fn", "tag", False)] if r.random() < 0.5 else [])
+        shapes = [(1, ("tp", 0)), (1, ("ctor", "Box", [("aty", ("tp", 0))])), (1, ("ref", None, False, ("tp", 0))),
+                  (1, ("ctor", "W1", [("aty", ("tp", 0))])), (2, ("ctor", "W2", [("aty", ("tp", 0)), ("aty", ("tp", 1))]))]
+        nparams, self_ty = self.pick(shapes)
+        targs = []
+        if r.random() < 0.3:
+            # the relaxed parameter as trait argument: trait Kita<X: ?Sized>
+            plan.trait_generics = [("ty", "X", "?Sized", None)]
+            targs = [("tp", r.randrange(nparams))]
+        keys = []
+        use_d7 = (r.random() < 0.25) if d7 is None else d7
+        for p in range(nparams):
+            dt = r.randrange(len(plan.dtraits))
+            bounded = ("tp", p)
+            if use_d7 and self_ty[0] == "ctor" and self_ty[1] == "Box" and p == 0:
+                bounded = self_ty          # D7 shape: the key bounds Box<T>, T itself is only relaxed
+            keys.append(Key(bounded, dt, [], self.pick(plan.dtraits[dt].assocs)))
+            if r.random() < 0.6:
+                break
+        members, rows = [], []
+        tries = 0
+        want = self.pick([2, 2, 3])
+        while len(members) < want and tries < 30:
+            tries += 1
+            row = [leaf(self.pick(MARKERS)) for _ in keys]
+            if any(_rows_unify(row, o) for o in rows):
+                continue
+            rows.append(row)
+            m = Member({}, row, nparams)
+            m.names = self.names(nparams)
+            m.inline = {ki: r.random() < 0.6 for ki in range(len(keys))}
+            m.unsized = {p for p in range(nparams) if r.random() < 0.55}
+            m.unsized_where = r.random() < 0.4
+            members.append(m)
+        if not any(m.unsized for m in members):
+            members[0].unsized = {0}
+        plan.families = [Family(self_ty, targs, nparams, keys, members)]
+        plan.world, plan.plain, plan.probes = [], [], []
+        for mi, m in enumerate(members):
+            # one sized and (if relaxed) one unsized witness per member, plus unsized instances for members that did not relax
+            saved = m.unsized
+            m.unsized = set()
+            plan.probes.append(self.witness(plan, 0, mi))
+            m.unsized = set(range(nparams))
+            for _ in range(2):
+                plan.probes.append(self.witness(plan, 0, mi))
+            m.unsized = saved
+        plan.probes.append(("str", self.default_targs(plan)))
+        self.finish_world(plan)
+        return plan
+
     # ------------------------------------------------------------------ inherent mode (C17, C06)
     def inherent(self):
         r = self.r
@@ -775,7 +974,7 @@ class PlanGen:
         return plan
 
     def default_targs(self, plan):
-        return [pr(leaf("u8")) for g in plan.trait_generics if g[0] == "ty"]
+        return [{"lt": "'static", "ty": "u8", "const": "1"}[g[0]] for g in plan.trait_generics]
 
 
 def _unify(a, b, sa, sb):
